@@ -20,7 +20,7 @@
     the count, panicking or not.
     Proofs: Lookup2.v, MutTrav.v, Mutate.v, Retain.v, IterExtra.v. *)
 From Coq Require Import List NArith Sorted Permutation Lia Bool.
-From PT Require Import Lookup Lookup2 MutTrav Mutate Retain Refine IterExtra.
+From PT Require Import Lookup Lookup2 MutTrav Mutate Retain Refine IterExtra Arena Arena2 Arena3 ArenaProps.
 From PT.Properties Require Import Common.
 Import ListNotations.
 Local Open Scope nat_scope.
@@ -259,6 +259,27 @@ Proof.
   destruct (C10_retain f m m' pn calls Hwf Hpure E) as [_ [_ [P [_ [_ [A _]]]]]]. split; [exact A | exact P].
 Qed.
 
+(** * The same statement about the ARENA-level transcription of the code (Arena*.v; ArenaProps.v
+      composes the refinement [Rep] with the tree-level theorem).  [areach am]: [am] is reached from
+      the empty arena by a history of arena-level mutator calls with valid prefixes. *)
+Theorem C10_arena_children (am : amap pfx V) (es : list (pfx * V)) (q : pfx) :
+  areach pfx V (peq w) (contains w fl) (is_bit_set w) plen (lcp w fl) pzero (okp w) am -> okp w q -> a_entries pfx V am = Ok es ->
+  Arena3.a_children pfx V (peq w) (contains w fl) (is_bit_set w) plen am q = Ok (filter (IterExtra.covered_by pfx V (kbits w) q) es).
+Proof. exact (arena_C10_children pfx V _ _ _ _ _ _ _ _ _ (laws w fl Hw) am es q). Qed.
+
+Theorem C10_arena_remove_children (am : amap pfx V) (es : list (pfx * V)) (q : pfx) :
+  areach pfx V (peq w) (contains w fl) (is_bit_set w) plen (lcp w fl) pzero (okp w) am -> okp w q -> a_entries pfx V am = Ok es ->
+  exists am', Arena2.a_remove_children pfx V (peq w) (contains w fl) (is_bit_set w) plen (lcp w fl) pzero am q = Ok am' /\ areach pfx V (peq w) (contains w fl) (is_bit_set w) plen (lcp w fl) pzero (okp w) am' /\
+    a_entries pfx V am' = Ok (filter (fun e => negb (is_prefix (kbits w q) (TrieWf.key pfx V (kbits w) e))) es).
+Proof. exact (arena_C10_remove_children pfx V _ _ _ _ _ _ _ _ _ (laws w fl Hw) am es q). Qed.
+
+Theorem C10_arena_retain (am : amap pfx V) (es : list (pfx * V))
+        (f : nat -> pfx -> V -> option bool) (g : pfx -> V -> bool) :
+  areach pfx V (peq w) (contains w fl) (is_bit_set w) plen (lcp w fl) pzero (okp w) am -> a_entries pfx V am = Ok es -> (forall n p x, f n p x = Some (g p x)) ->
+  exists am' calls, Arena2.a_retain pfx V f am = Ok (am', false, calls) /\ areach pfx V (peq w) (contains w fl) (is_bit_set w) plen (lcp w fl) pzero (okp w) am' /\
+    a_entries pfx V am' = Ok (filter (fun e => g (fst e) (snd e)) es) /\ Permutation.Permutation calls es.
+Proof. exact (arena_C10_retain pfx V _ _ _ _ _ _ _ _ _ (laws w fl Hw) am es f g). Qed.
+
 End C10.
 
 (** non-vacuity: a reachable state with a value-less leftover (128/1 after [remove_keep_tree]),
@@ -308,3 +329,6 @@ Print Assumptions C10_retain_all_predicates.
 Print Assumptions C10_retain_total.
 Print Assumptions C10_retain_wf.
 Print Assumptions C10_reachable.
+Print Assumptions C10_arena_children.
+Print Assumptions C10_arena_remove_children.
+Print Assumptions C10_arena_retain.
